@@ -61,11 +61,18 @@ func c10(p *core.Program, r *core.Report) {
 
 	const r2 = "filter-constant"
 	r.Rule(r2, "the floating-point filter's relative error constant dpSafeEpsilon is at least Shewchuk's bound (3+16e)e with e = 2^-53 (3.3307e-16), is read only in errbound = dpSafeEpsilon * detsum, and no instruction outside package init writes it", 2)
-	if pkg := p.SSAPkgs[mod+"/bigxy"]; pkg != nil {
-		g, _ := pkg.Members["dpSafeEpsilon"].(*ssa.Global)
-		if g == nil {
-			r.Lost(r2, "bigxy.dpSafeEpsilon", "variable no longer exists")
-		} else {
+	if ff := p.SSAFunc("bigxy", "orientationIndexFilter"); ff != nil {
+		_, g, cst := filterEpsilon(ff)
+		e := math.Pow(2, -53)
+		bound := (3 + 16*e) * e
+		switch {
+		case g == nil && cst == nil:
+			r.Lost(r2, "bigxy.dpSafeEpsilon", "the filter's error bound (a small relative coefficient times detsum) is no longer found")
+		case cst != nil:
+			val, _ := constant.Float64Val(constant.ToFloat(cst.Value))
+			r.Check(val >= bound, r2, "bigxy.dpSafeEpsilon/value", p.Pos(ff.Pos()), true, fmt.Sprintf("%g >= (3+16e)e = %g", val, bound), fmt.Sprintf("dpSafeEpsilon = %g is below the round-off bound %g of the filter: ill-conditioned triples are answered by the filter with the wrong sign", val, bound))
+			r.OK(r2, "bigxy.dpSafeEpsilon/immutable", p.Pos(ff.Pos()), true, "a constant")
+		default:
 			// initial value: the Store in init
 			val, found := 0.0, false
 			nonInitWrite := ""
@@ -87,8 +94,6 @@ func c10(p *core.Program, r *core.Report) {
 					}
 				}
 			}
-			e := math.Pow(2, -53)
-			bound := (3 + 16*e) * e
 			r.Check(found && val >= bound, r2, "bigxy.dpSafeEpsilon/value", p.Pos(g.Pos()), true, fmt.Sprintf("%g >= (3+16e)e = %g", val, bound), fmt.Sprintf("dpSafeEpsilon = %g is below the round-off bound %g of the filter: ill-conditioned triples are answered by the filter with the wrong sign", val, bound))
 			r.Check(nonInitWrite == "", r2, "bigxy.dpSafeEpsilon/immutable", p.Pos(g.Pos()), true, "written only by package init", "dpSafeEpsilon is written by "+nonInitWrite)
 		}
@@ -129,12 +134,6 @@ func c10(p *core.Program, r *core.Report) {
 			}
 		}
 		r.Check(bad == "", r3, "bigxy.OrientationIndex/filter-cutoff", p.Pos(fn.Pos()), true, "filter answers <= 1 are returned, anything else goes to the exact path", bad)
-	}
-
-	const r3b = "filter-underflow-guarded"
-	r.Rule(r3b, "Shewchuk's bound presupposes that neither product of differences underflows. (a) The error-bound tests of orientationIndexFilter are unreachable once the edges on which `detsum >= C` is known (C a constant of at least 2^-969, the magnitude below which dpSafeEpsilon*detsum itself is subnormal) are deleted, and the other edge of that test returns the cannot-decide value; (b) on the branch where detleft is neither > 0 nor < 0 a decided sign is returned only behind a test of the products' factors against 0 (a zero product is exact only if one of its factors is zero): otherwise two products that underflow to zero read as collinear for three points that are not", 2)
-	if ff := mustFn(p, r, r3b, "bigxy", "orientationIndexFilter"); ff != nil {
-		filterUnderflowRule(p, r, r3b, ff)
 	}
 
 	const r4 = "delegation"
@@ -294,16 +293,8 @@ func filterStructure(p *core.Program, r *core.Report, rule string, fn *ssa.Funct
 		return ok && c.Value != nil && constant.Sign(constant.ToFloat(c.Value)) == 0
 	}
 	var errbound ssa.Value
-	for _, b := range fn.Blocks {
-		for _, in := range b.Instrs {
-			if bo, ok := in.(*ssa.BinOp); ok && bo.Op == token.MUL {
-				if ld, ok := bo.X.(*ssa.UnOp); ok && ld.Op == token.MUL {
-					if g, ok := ld.X.(*ssa.Global); ok && g.Name() == "dpSafeEpsilon" {
-						errbound = bo
-					}
-				}
-			}
-		}
+	if eb, _, _ := filterEpsilon(fn); eb != nil {
+		errbound = eb
 	}
 	bad := ""
 	nsign, nbound := 0, 0
@@ -330,9 +321,9 @@ func filterStructure(p *core.Program, r *core.Report, rule string, fn *ssa.Funct
 		case (c.X == detleft || c.X == detright) && isZero(c.Y):
 			nsign++
 		case isFactorV(c.X) && isZero(c.Y):
-			// a factor of a product tested against 0: is a zero product exact? (filter-underflow-guarded)
+			// a factor of a product tested against 0: is a zero product exact? (the guards added by the robustness repair 0a8a348)
 		case errbound != nil && c.X == errbound.(*ssa.BinOp).Y && isConstF(c.Y):
-			// the magnitude test on detsum (filter-underflow-guarded)
+			// the magnitude test on detsum (the guards added by the robustness repair 0a8a348)
 		case errbound != nil && c.Y == errbound && c.Op == token.GEQ && (c.X == det || isNeg(c.X, det)):
 			nbound++
 		default:
@@ -420,172 +411,29 @@ func exactSignRule(p *core.Program, r *core.Report, rule string, exact *ssa.Func
 	r.Check(len(conv) == 0 && sign >= 1, rule, short(exact), p.Pos(exact.Pos()), true, fmt.Sprintf("sign taken by %d Sign/Cmp call(s), no narrowing conversion", sign), fmt.Sprintf("the exact determinant is narrowed by %v (Sign/Cmp calls: %d): a tiny non-zero determinant rounds to zero and reads as collinear", conv, sign))
 }
 
-// filterUnderflowRule: see the rule text in c10.
-func filterUnderflowRule(p *core.Program, r *core.Report, rule string, fn *ssa.Function) {
-	isDiff := func(v ssa.Value) bool {
-		bo, ok := v.(*ssa.BinOp)
-		if !ok || bo.Op != token.SUB {
-			return false
-		}
-		_, _, ok1 := elemOfParam(fn, bo.X)
-		_, _, ok2 := elemOfParam(fn, bo.Y)
-		return ok1 && ok2
-	}
-	var products []*ssa.BinOp
+
+// filterEpsilon finds the error bound of the filter: the float product one of whose factors is the relative error
+// coefficient - a package variable (returned as g) or a constant (returned as c) - and the other is not.
+func filterEpsilon(fn *ssa.Function) (errbound *ssa.BinOp, g *ssa.Global, c *ssa.Const) {
 	for _, b := range fn.Blocks {
 		for _, in := range b.Instrs {
-			if bo, ok := in.(*ssa.BinOp); ok && bo.Op == token.MUL && isDiff(bo.X) && isDiff(bo.Y) {
-				products = append(products, bo)
-			}
-		}
-	}
-	if len(products) != 2 {
-		r.Lost(rule, short(fn)+"/products", "the two products of coordinate differences were not found")
-		return
-	}
-	isProduct := func(v ssa.Value) bool { return v == ssa.Value(products[0]) || v == ssa.Value(products[1]) }
-	isFactor := func(v ssa.Value) bool {
-		for _, pr := range products {
-			if v == pr.X || v == pr.Y {
-				return true
-			}
-		}
-		return false
-	}
-	// (a) the errbound tests are behind detsum >= C
-	var errbound ssa.Value
-	for _, b := range fn.Blocks {
-		for _, in := range b.Instrs {
-			if bo, ok := in.(*ssa.BinOp); ok && bo.Op == token.MUL {
-				if ld, ok := bo.X.(*ssa.UnOp); ok && ld.Op == token.MUL {
-					if g, ok := ld.X.(*ssa.Global); ok && g.Name() == "dpSafeEpsilon" {
-						errbound = bo
-					}
-				}
-			}
-		}
-	}
-	badA := ""
-	if errbound == nil {
-		badA = "errbound = dpSafeEpsilon * detsum not found"
-	} else {
-		detsum := errbound.(*ssa.BinOp).Y
-		pass := eng.EdgeSet{}
-		for _, b := range fn.Blocks {
-			for edge := 0; edge < 2; edge++ {
-				c, ok := eng.EdgeCmp(b, edge)
-				if !ok {
-					continue
-				}
-				x, y, op := c.X, c.Y, c.Op
-				if op == token.LEQ || op == token.LSS {
-					x, y, op = y, x, eng.SwapOp(op)
-				}
-				if (op != token.GEQ && op != token.GTR) || x != detsum {
-					continue
-				}
-				k, isC := y.(*ssa.Const)
-				if !isC || k.Value == nil {
-					continue
-				}
-				f, _ := constant.Float64Val(constant.ToFloat(k.Value))
-				if f >= math.Ldexp(1, -969) {
-					pass[[2]int{b.Index, edge}] = true
-					// the other edge returns the cannot-decide value
-					for fb := range eng.ReachableFromEdge(b, 1-edge, nil) {
-						for _, in := range fb.Instrs {
-							if ret, isRet := in.(*ssa.Return); isRet {
-								if v, isK := eng.ConstInt(ret.Results[0]); !isK || v <= 1 {
-									badA = "the small-magnitude edge of the detsum test returns a decided sign"
-								}
-							}
-						}
-					}
-				}
-			}
-		}
-		if len(pass) == 0 {
-			badA = "no test `detsum >= C` (C >= 2^-969) precedes the error-bound comparison: for products near the underflow threshold dpSafeEpsilon*detsum is subnormal or zero and `det >= errbound` holds for a determinant that is pure rounding noise"
-		} else {
-			reach := eng.Reachable(fn.Blocks[0], pass)
-			for _, b := range fn.Blocks {
-				c, _, ok := eng.AsCmp(func() ssa.Value {
-					if ifi := eng.BlockIf(b); ifi != nil {
-						return ifi.Cond
-					}
-					return nil
-				}())
-				if ok && c.Y == errbound && reach[b] {
-					badA = "an error-bound comparison is reachable without passing the detsum magnitude test"
-				}
-			}
-		}
-	}
-	r.Check(badA == "", rule, short(fn)+"/errbound-behind-magnitude-test", p.Pos(fn.Pos()), true, "error-bound tests only for detsum >= 2^-969", badA)
-	// (b) the branch on which detleft is neither > 0 nor < 0
-	zeroEdges := eng.EdgeSet{} // edges taken when detleft > 0 or detleft < 0 holds: delete them to stay in the zero branch
-	isZeroC := func(v ssa.Value) bool {
-		c, ok := v.(*ssa.Const)
-		return ok && c.Value != nil && constant.Sign(constant.ToFloat(c.Value)) == 0
-	}
-	nSplit := 0
-	for _, b := range fn.Blocks {
-		for edge := 0; edge < 2; edge++ {
-			c, ok := eng.EdgeCmp(b, edge)
-			if !ok || !isProduct(c.X) || !isZeroC(c.Y) {
+			bo, ok := in.(*ssa.BinOp)
+			if !ok || bo.Op != token.MUL {
 				continue
 			}
-			// edges on which a product is known to be non-zero: leaving the region "both products are zero"
-			if c.Op == token.GTR || c.Op == token.LSS || c.Op == token.NEQ {
-				zeroEdges[[2]int{b.Index, edge}] = true
-				if c.X == ssa.Value(products[0]) {
-					nSplit++
+			for _, o := range []ssa.Value{bo.X, bo.Y} {
+				if ld, isLd := o.(*ssa.UnOp); isLd && ld.Op == token.MUL {
+					if gg, isG := ld.X.(*ssa.Global); isG {
+						return bo, gg, nil
+					}
+				}
+				if cc, isC := o.(*ssa.Const); isC && cc.Value != nil {
+					if f, _ := constant.Float64Val(constant.ToFloat(cc.Value)); f > 0 && f < 1e-6 {
+						return bo, nil, cc
+					}
 				}
 			}
 		}
 	}
-	if nSplit == 0 {
-		zeroEdges = eng.EdgeSet{}
-	}
-	badB := ""
-	if len(zeroEdges) == 0 {
-		badB = "the case split on detleft was not found"
-	} else {
-		// edges on which a factor has been compared with 0
-		factorTests := eng.EdgeSet{}
-		for _, b := range fn.Blocks {
-			c, _, ok := eng.AsCmp(func() ssa.Value {
-				if ifi := eng.BlockIf(b); ifi != nil {
-					return ifi.Cond
-				}
-				return nil
-			}())
-			if ok && ((isFactor(c.X) && isZeroC(c.Y)) || (isFactor(c.Y) && isZeroC(c.X))) {
-				factorTests[[2]int{b.Index, 0}] = true
-				factorTests[[2]int{b.Index, 1}] = true
-			}
-		}
-		blocked := eng.EdgeSet{}
-		for k := range zeroEdges {
-			blocked[k] = true
-		}
-		for k := range factorTests {
-			blocked[k] = true
-		}
-		// is a decided-sign return reachable in the zero branch without any factor test?
-		reach := eng.Reachable(fn.Blocks[0], blocked)
-		for b := range reach {
-			for _, in := range b.Instrs {
-				ret, ok := in.(*ssa.Return)
-				if !ok {
-					continue
-				}
-				if v, isK := eng.ConstInt(ret.Results[0]); isK && v > 1 {
-					continue
-				}
-				badB = "with detleft == 0 and detright == 0 a decided sign is returned at " + p.Pos(ret.Pos()) + " without any factor of the products having been compared with 0: both products may have underflowed and three non-collinear points are reported collinear"
-			}
-		}
-	}
-	r.Check(badB == "", rule, short(fn)+"/zero-product-is-exact", p.Pos(fn.Pos()), true, "zero products are trusted only after their factors were tested", badB)
+	return nil, nil, nil
 }
